@@ -143,6 +143,56 @@ def gen_chain(rng):
     return Scenario(sites, pkgs)
 
 
+def gen_diamond(rng):
+    """siblings: package 0 owns a few exported sites; 2..4 sibling packages import only package 0 and each contributes
+    some sources, sinks and edges between those sites (none sees what the others know); the last package imports all
+    of them, so what the siblings' facts imply together -- a conflict between a site one sibling determined nilable
+    and one another sibling determined non-nil, over an edge a third one recorded -- arises only while importing.
+    Which sibling (first, middle, last in the path order facts are replayed in) carries which part is random."""
+    nbase = rng.randint(2, 5)
+    sites = [(i, True, False, 0) for i in range(1, nbase + 1)]
+    nsib = rng.randint(2, 4)
+    sid = nbase
+    tid = 100
+    pkgs = [dict(imports=[], annots=[], trigs=[])]
+    base = [s[0] for s in sites]
+    # a planted chain source -> x1 -> ... -> xk -> sink over the base sites, its pieces dealt to random siblings
+    k = rng.randint(1, min(3, nbase - 1))
+    chain = rng.sample(base, k + 1)
+    pieces = [(A, C, 0, chain[0])] + [(C, C, chain[i], chain[i + 1]) for i in range(k)] + [(C, A, chain[-1], 0)]
+    if rng.random() < 0.3:
+        pieces.pop(rng.randrange(len(pieces)))          # sometimes the chain is broken: no conflict
+    deal = {j: [] for j in range(1, nsib + 1)}
+    for pc in pieces:
+        deal[rng.randint(1, nsib)].append(pc)
+    for j in range(1, nsib + 1):
+        own = []
+        for _ in range(rng.randint(0, 2)):
+            sid += 1
+            own.append((sid, rng.random() < 0.5, False, j))
+        sites += own
+        vis = base + [s[0] for s in own]
+        trigs = []
+        for (pk, ck, p, c) in deal[j]:
+            tid += 1
+            trigs.append((tid, pk, ck, p, c, -1))
+        for _ in range(rng.randint(0, 3)):               # noise
+            tid += 1
+            pk = rng.choices([A, N, C], [10, 10, 80])[0]
+            ck = rng.choices([A, C], [10, 90])[0]
+            trigs.append((tid, pk, ck, rng.choice(vis) if pk == C else 0, rng.choice(vis) if ck == C else 0, -1))
+        rng.shuffle(trigs)
+        pkgs.append(dict(imports=[0], annots=[], trigs=trigs))
+    top = []
+    for _ in range(rng.randint(0, 2)):
+        tid += 1
+        top.append((tid, C, C, rng.choice(base), rng.choice(base), -1))
+    imports = list(range(nsib + 1))
+    rng.shuffle(imports)
+    pkgs.append(dict(imports=imports, annots=[], trigs=top))
+    return Scenario(sites, pkgs)
+
+
 def gen_exhaustive_single(nsites=3, ntrigs=2, with_ctrl=True):
     """All single-package scenarios over `nsites` sites (site 1 is a param site and the only possible
     controller), all trigger lists of length `ntrigs` over the kind matrix."""
